@@ -329,7 +329,17 @@ func logsloglevel2Level(level logslog.Level) Level {
 	case LevelPanic:
 		return PanicLevel
 	}
-	return FatalLevel
+	// any other value acts as the nearest standard level below it, like
+	// log/slog does; it must never turn into a terminating level.
+	switch {
+	case level < logslog.LevelInfo:
+		return DebugLevel
+	case level < logslog.LevelWarn:
+		return InfoLevel
+	case level < logslog.LevelError:
+		return WarnLevel
+	}
+	return ErrorLevel
 }
 
 // mLevelIsEnabledAs is a replacement table of two levels.
